@@ -156,6 +156,12 @@ def run_history(case, two_d_monitors=False):
     vd_nonzero = two_d_monitors or wa
     pva0 = random_pva(rng, t0, vd=vd_nonzero, two_d=two_d_monitors)
     inc = random_increments(rng, n_inc, t0, big_vertical=two_d_monitors)
+    if rng.random() < 0.25:
+        # "any increments table": columns in another order and an extra column (selection must be by label)
+        cols = list(inc.columns)
+        inc['temperature'] = 20.0 + rng.standard_normal(len(inc))
+        inc = inc[list(rng.permutation(cols + ['temperature']))]
+        bump('tables_with_permuted_columns')
     pva0_copy = pva0.copy()
     inc_copy = inc.copy()
     I = Sub(pva0, wa)
@@ -270,7 +276,18 @@ def run_history(case, two_d_monitors=False):
                 # overwrite the latest state
                 t_now = I.trajectory.index[-1]
                 newp = random_pva(rng, t_now, vd=vd_nonzero, two_d=two_d_monitors)
-                if rng.random() < 0.3:      # small correction of the current state, as a filter does
+                mode_r = rng.random()
+                if mode_r < 0.25:           # position / velocity reset that keeps the reported angles exactly (set_pva(get_pva()) included)
+                    cur = I.get_pva()
+                    newp = cur.copy()
+                    if rng.random() < 0.7:
+                        newp['lat'] += 1e-5 * rng.standard_normal()
+                        newp['VN'] += 0.3 * rng.standard_normal()
+                        if vd_nonzero:
+                            newp['alt'] += rng.standard_normal()
+                    newp.name = t_now
+                    bump('set_pva_angles_kept')
+                elif mode_r < 0.5:      # small correction of the current state, as a filter does
                     cur = I.get_pva()
                     newp = cur + pd.Series(np.r_[rng.standard_normal(2) * 1e-5, rng.standard_normal(1),
                                                  rng.standard_normal(3) * 0.1, rng.standard_normal(3) * 0.1], index=TRAJ)
